@@ -354,6 +354,26 @@ func c09RingRun(ctx *core.RunCtx) {
 			}
 		}
 	}
+	// a polynomial whose level was lowered and is raised again holds zero rows above the level it kept (Resize is what
+	// every operation uses to give its receiver the level of the result)
+	if r.MaxLevel() > 0 {
+		p := *pool[0].CopyNew()
+		top := p.Level()
+		if top > 0 {
+			keep := ch.Draw("resize-keep-level", top)
+			p.Resize(keep)
+			p.Resize(top)
+			ctx.Count("oracle.resize-up-gives-zero-rows", 1)
+			for i := keep + 1; i <= top; i++ {
+				for j, c := range p.Coeffs[i] {
+					if c != 0 {
+						ctx.Fail("result", "ring|Poly.Resize|residue", "a polynomial lowered from level %d to %d and raised again has its former content in row %d (coefficient %d is %d): the rows a raise adds are zero", top, keep, i, j, c)
+						return
+					}
+				}
+			}
+		}
+	}
 	if interesting > 0 {
 		ctx.Nontrivial = true
 	}
